@@ -39,6 +39,12 @@ func genC08(tier string, r *rng, emit func(string)) {
 		// bookkeeping), contiguous, lazily transposed and column-major operands
 		for ax := 0; ax < n; ax++ {
 			emit(fmt.Sprintf("prog %s new:rm:%s:1;reducefn:sum:0:%d", []string{"i", "f64", "i32"}[ax%3], fints(sh), ax))
+			// a user function that is not a sum, on positive and on negative runs (found by a proof: the
+			// default value takes part along the last axis only)
+			for _, fnn := range []string{"min", "max"} {
+				emit(fmt.Sprintf("prog %s new:rm:%s:1;reducefn:%s:0:%d", []string{"i", "f64"}[ax%2], fints(sh), fnn, ax))
+				emit(fmt.Sprintf("prog %s new:rm:%s:-40;reducefn:%s:0:%d", []string{"f64", "i"}[ax%2], fints(sh), fnn, ax))
+			}
 			if n >= 2 && r.intn(3) == 0 {
 				emit(fmt.Sprintf("prog f64 new:rm:%s:1;T:0:_;reducefn:sum:0:%d", fints(sh), ax))
 				emit(fmt.Sprintf("prog f64 new:cm:%s:1;reducefn:sum:0:%d", fints(sh), ax))
